@@ -484,6 +484,57 @@ func c20Recursion(c *Check) {
 	if n < 4 {
 		c.Fail("R3", "cycles", token.NoPos, "undecided: expected the block-nesting and import-expansion recursion cycles")
 	}
+	// The nesting counter is the depth only if an invocation of readNodes that has given its level back (nesting--)
+	// reads no further node: otherwise the following lines are parsed as children of a block that was closed, at a
+	// counter value one too low – each such line nests one level deeper while the counter never grows.
+	if r := c.need("R3", cfgparserRel, "parseContext", "readNodes"); r != nil {
+		info := r.Info
+		reads := r.F.PtCalls(calling("~/" + cfgparserRel + ".parseContext.readNode"))
+		var decs []Pt
+		for _, pt := range r.F.Points() {
+			if ids, ok := pt.Node().(*ast.IncDecStmt); ok && ids.Tok == token.DEC {
+				if fv := fieldOf(info, ids.X); fv != nil && fv.Name() == "nesting" {
+					decs = append(decs, pt)
+				}
+			}
+		}
+		flagSet := func(pt Pt) types.Object {
+			as, ok := pt.Node().(*ast.AssignStmt)
+			if !ok || len(as.Lhs) != 1 || len(as.Rhs) != 1 {
+				return nil
+			}
+			if id, ok := ast.Unparen(as.Rhs[0]).(*ast.Ident); !ok || id.Name != "true" {
+				return nil
+			}
+			if v, ok := objOf(info, as.Lhs[0]).(*types.Var); ok && !v.IsField() {
+				return v
+			}
+			return nil
+		}
+		if len(decs) < 2 {
+			c.Fail("R3", "readNodes:level-given-back", r.FI.Decl.Pos(), "undecided: expected the two places where a block's closing brace gives the nesting level back")
+		}
+		for i, d := range decs {
+			key := "readNodes:closed" + itoa(i+1) + ":reads-no-further-node"
+			msg := ""
+			if path, f := r.F.Reach(Query{From: []Pt{d}, Target: reads, Avoid: func(pt Pt) bool { return flagSet(pt) != nil }}); f {
+				msg = r.F.Describe(path)
+			}
+			for _, pt := range r.F.Points() {
+				fl := flagSet(pt)
+				if fl == nil {
+					continue
+				}
+				if _, reach := r.F.Reach(Query{From: []Pt{d}, Target: func(q Pt) bool { return q == pt }, Avoid: reads}); !reach {
+					continue
+				}
+				if path, f := r.F.ReachRefined(pt, fl, false, true, reads, nil); f {
+					msg = r.F.Describe(path)
+				}
+			}
+			c.Hold("R3", key, r.Pos(d), msg == "", "after the closing brace of its block was consumed (nesting--) readNodes goes on reading nodes into the same block: the nesting limit is bypassed (N lines `a { $(x) = 1 }` give a tree N levels deep) and directives land in the wrong block: "+msg)
+		}
+	}
 }
 
 // c20DepthGuard: call passes <ctr>+1 (or the counter was incremented) and a dominating guard `ctr > K` returns.
